@@ -327,6 +327,11 @@ func (f *Frame) callByContract(v ssa.Value, in ssa.Instruction, sig *types.Signa
 	var rs []Val
 	if pure && sig.Results().Len() == 1 {
 		rs = []Val{u.W.pureApp(u, c, callee, sig, args, pre)}
+	} else if pure && sig.Results().Len() > 1 {
+		// a pure function with several results: one deterministic function per result
+		for i := 0; i < sig.Results().Len(); i++ {
+			rs = append(rs, u.W.pureAppN(u, c, callee, sig, args, pre, i))
+		}
 	} else {
 		rs = f.resultVals(v, sig, "ret."+v.Name())
 	}
@@ -1379,10 +1384,26 @@ func (f *Frame) abstractCall(v ssa.Value, callee *ssa.Function, sig *types.Signa
 	u := f.u
 	var sorts, ts []string
 	ok := true
+	local := map[string]bool{}
+	for _, r := range f.allocRefs {
+		local[r] = true
+	}
+	var outs []Val
 	for _, a := range args {
 		if a.T == "" || a.Loc != nil {
 			ok = false
 			break
+		}
+		if pv, boxed := f.localIfaces[a.T]; boxed && a.T != "" {
+			outs = append(outs, pv)
+			continue
+		}
+		if _, isPtr := a.Typ.Underlying().(*types.Pointer); isPtr && local[a.T] {
+			// an out-parameter pointing to a variable of this frame: where it was allocated is
+			// irrelevant to the callee's result; what the callee stores there is a function of
+			// the other arguments
+			outs = append(outs, a)
+			continue
 		}
 		sorts = append(sorts, u.D.SortOf(a.Typ))
 		ts = append(ts, a.T)
@@ -1394,6 +1415,30 @@ func (f *Frame) abstractCall(v ssa.Value, callee *ssa.Function, sig *types.Signa
 	u.scalar("$hv", "Int")
 	sorts = append(sorts, "Int")
 	ts = append(ts, u.hget(st.heap, "$hv"))
+	for k, a := range outs {
+		el := a.Typ.Underlying().(*types.Pointer).Elem()
+		if stt, isSt := el.Underlying().(*types.Struct); isSt {
+			for i := 0; i < stt.NumFields(); i++ {
+				arr, _ := u.fieldArr(el, i)
+				es := u.D.SortOf(stt.Field(i).Type())
+				if strings.HasPrefix(es, "(Array") {
+					continue // embedded array fields: left as they are
+				}
+				fn := u.D.Fun(fmt.Sprintf("abs:%s#out%d.%d", callee.String(), k, i), sorts, es)
+				t := u.define("abs", es, app(fn, ts...))
+				u.assumeRange(t, stt.Field(i).Type())
+				u.hset(st.heap, arr, sto(u.hget(st.heap, arr), a.T, t))
+			}
+			continue
+		}
+		arr, _ := u.cellArr(el)
+		es := u.D.SortOf(el)
+		fn := u.D.Fun(fmt.Sprintf("abs:%s#out%d", callee.String(), k), sorts, es)
+		t := u.define("abs", es, app(fn, ts...))
+		u.assumeRange(t, el)
+		u.wellFormedLoaded(st.heap, t, el)
+		u.hset(st.heap, arr, sto(u.hget(st.heap, arr), a.T, t))
+	}
 	var rs []Val
 	for i := 0; i < sig.Results().Len(); i++ {
 		rt := sig.Results().At(i).Type()
